@@ -1,5 +1,6 @@
 """C10 Nothing is dropped silently: the meaning of 'full'."""
 import json
+import re
 import os
 import sys
 
@@ -91,6 +92,12 @@ def run(tier):
     for tok in (unsup if tier == "thorough" else r.sample(unsup, min(len(unsup), 12))):
         cases.append((f"Glc3{tok}", "Glc", {"unsupported-modification"}))
         cases.append((f"Man(a1-4)Glc{tok}", "Man(a1-4)Glc", {"unsupported-modification"}))
+    # four residues on one residue (root and inner), plain and with one unsupported modification on a branch:
+    # "every residue ... is realised" -- each residue of this vocabulary brings exactly one ring
+    tok0 = unsup[0] if unsup else "Leu"
+    for pre, post in (("", ""), ("", "(b1-4)GlcNAc")):
+        cases.append((f"Man(a1-2)[Gal(a1-3)][Fuc(a1-4)][Xyl(b1-6)]Glc{post}", None, set()))
+        cases.append((f"Man(a1-2)[Gal(a1-3)][Fuc(a1-4)][Xyl3{tok0}(b1-6)]Glc{post}", f"Man(a1-2)[Gal(a1-3)][Fuc(a1-4)][Xyl(b1-6)]Glc{post}", {"unsupported-modification"}))
     # a ring-form letter for which the library has no row of that sugar is an unknown monosaccharide
     rows = [x.split("\x1e") for x in orc.drv.call("librows").split("\x1f") if x]
     have = {"p": set(), "f": set()}
@@ -137,6 +144,13 @@ def run(tier):
             fl = flags[ci]
             if fl.get("accepted") and fl.get("tree_full") is False:
                 report.fail({"site": "full-flag", "kind": "flag-cleared-without-obstacle"}, {"input": text})
+        if sT and not obs:
+            nres = len(re.findall(r"(?:Glc|Man|Gal|Fuc|Xyl|Neu|Kdo)", text))
+            d = orc.describe(sT)
+            if d and d["rings"] != nres:
+                report.fail({"site": "full-flag", "kind": "residue-not-realised"},
+                            {"input": text, "full": True, "observed": sT, "rings": d["rings"], "residues_written": nres,
+                             "problem": "full=True returned a molecule with fewer (or more) rings than residues written: some residue is not realised"})
         if sT:
             if not sF or not orc.same(sT, sF):
                 report.fail({"site": "gate", "kind": "full-false-differs"},
